@@ -11,6 +11,11 @@ pub struct Inner {
     pub last_ttl: Option<u128>,
     pub writes: u64,
     pub gets: u64,
+    /// ghost: the never-cleaned expiring map (key -> (value, expiry ns))
+    pub ghost: std::collections::HashMap<String, (i64, i128)>,
+    /// the last `get` returned nothing although the ghost map shows a visible value
+    pub last_get_stale: bool,
+    pub stale_events: u64,
 }
 
 #[derive(Clone)]
@@ -21,18 +26,32 @@ impl Store for Rec {
         let mut i = self.0.borrow_mut();
         i.last_ttl = Some(ttl.as_nanos());
         i.writes += 1;
-        i.store.compare_and_swap_with_ttl(key, old, new, ttl, now)
+        let r = i.store.compare_and_swap_with_ttl(key, old, new, ttl, now);
+        if let Ok(true) = r {
+            i.ghost.insert(key.to_string(), (new, time_to_ns(now) + ttl.as_nanos() as i128));
+        }
+        r
     }
     fn get(&self, key: &str, now: SystemTime) -> Result<Option<i64>, String> {
         let mut i = self.0.borrow_mut();
         i.gets += 1;
-        i.store.get(key, now)
+        let r = i.store.get(key, now);
+        let gv = i.ghost.get(key).and_then(|(v, e)| if time_to_ns(now) < *e { Some(*v) } else { None });
+        i.last_get_stale = matches!(r, Ok(None)) && gv.is_some();
+        if i.last_get_stale {
+            i.stale_events += 1;
+        }
+        r
     }
     fn set_if_not_exists_with_ttl(&mut self, key: &str, value: i64, ttl: Duration, now: SystemTime) -> Result<bool, String> {
         let mut i = self.0.borrow_mut();
         i.last_ttl = Some(ttl.as_nanos());
         i.writes += 1;
-        i.store.set_if_not_exists_with_ttl(key, value, ttl, now)
+        let r = i.store.set_if_not_exists_with_ttl(key, value, ttl, now);
+        if let Ok(true) = r {
+            i.ghost.insert(key.to_string(), (value, time_to_ns(now) + ttl.as_nanos() as i128));
+        }
+        r
     }
 }
 
@@ -89,13 +108,14 @@ impl Req {
 
 impl Lim {
     pub fn new(cfg: &Cfg) -> Lim {
-        let inner = Rc::new(RefCell::new(Inner { store: cfg.build(), last_ttl: None, writes: 0, gets: 0 }));
+        let inner = Rc::new(RefCell::new(Inner { store: cfg.build(), last_ttl: None, writes: 0, gets: 0, ghost: Default::default(), last_get_stale: false, stale_events: 0 }));
         Lim { rl: RateLimiter::new(Rec(inner.clone())), inner, dead: false }
     }
     pub fn call(&mut self, r: &Req) -> Out {
         let ks = key_string(r.key);
         let tm = ns_to_time(r.now);
         self.inner.borrow_mut().last_ttl = None;
+        self.inner.borrow_mut().last_get_stale = false;
         let rl = &mut self.rl;
         let res = catch_unwind(AssertUnwindSafe(|| rl.rate_limit(&ks, r.b, r.count, r.period, r.q, tm)));
         match res {
@@ -125,6 +145,9 @@ impl Lim {
     }
     pub fn writes(&self) -> u64 {
         self.inner.borrow().writes
+    }
+    pub fn last_get_stale(&self) -> bool {
+        self.inner.borrow().last_get_stale
     }
 }
 
